@@ -12,16 +12,28 @@
    coefficient at every monomial of x-degree <= N (monomials compared on the
    variables V).  `SN T N` is the family of TRUE series of the classes, truncated
    at order N, built from the true term tables  T l n  (Counter parameters->count).
-   Genuineness of a rule is stated on the term tables, positionally, as get_terms
-   re-keys them (union_genuine / product_genuine, Count/EquationsRules.v); that the
-   library's get_terms computes exactly this is C09.
+
+   GENUINENESS of a rule is a HYPOTHESIS of every theorem of group 1 (nobody concludes it):
+   * union_genuine pars T p kids (Count/EquationsRules.v) is stated on the term tables,
+     positionally: the parent's Counter at size n is the sum of the children's Counters
+     re-keyed through the dictionaries (an unmapped parent parameter reads 0, an unmapped child
+     parameter is summed out);
+   * product_genuine pars T V p kids N is stated on SERIES coefficients for the given V and N:
+     the parent's true series is the Cauchy product of the children's re-keyed series up to
+     order N — i.e. the theorem's own content for products is the substitution step
+     (simultaneous substitution of variables = positional re-keying), not the convolution.
+   These are this file's own predicates.  C09 has predicates of the same NAMES
+   (Count/ConstructorsUnionProduct.v) over other types; no lemma relates the two, and C09 too
+   assumes genuineness.  Per instance the harness evaluates exactly these two predicates on
+   brute-force tables for every generated rule (harness/props/c20.py, _genuine).
 
    Every theorem quantifies over ALL truncation orders N, all variable sets V, all
    term tables and all parameter dictionaries meeting the stated conditions.      *)
 From Coq Require Import ZArith List Bool Lia.
 From CSS Require Import Forest.Spec Spec.Eval Gen.Prelude Gen.ProductShifts.
 From CSS Require Import Count.Series Count.SeriesConv Count.Equations Count.EquationsProofs
-  Count.EquationsRules Count.SeriesUnique Count.SeriesUniqueRefuted.
+  Count.EquationsRules Count.EquationsEquiv Count.SeriesUnique Count.SeriesUniqueRefuted
+  Count.SeriesClosedForm.
 Import ListNotations.
 Open Scope Z_scope.
 
@@ -89,8 +101,11 @@ Theorem C20_equivalence_equation_satisfied : forall pars T O V o cidx N,
   satisfied pars T O V N (REquivUnion o cidx).
 Proof. intros. apply equiv_equation_holds; auto. Qed.
 
-(* EquivalencePathRule: a one-child union with the composed dictionary `ep`
-   (that the composed constructor is genuine when the steps are is C09_path) *)
+(* EquivalencePathRule: a one-child union with the composed dictionary `ep`.  The genuineness
+   of the COMPOSED one-child union is a hypothesis (C09_path is about another predicate and is
+   not used).  kid_wf asks every parameter of the end class to be the image of a start
+   parameter: the case fixed_values = {} of EquivalencePathRule.constructor; for
+   fixed_values <> {} see C20_path_equation_fixed_values_satisfied. *)
 Theorem C20_path_equation_satisfied : forall pars T O V p steps c ep N,
   path_eps (pars p) steps = Some ep ->
   class_wf pars T p -> kid_wf pars T (pars p) (c, ep) -> union_genuine pars T p [(c, ep)] ->
@@ -111,6 +126,65 @@ Theorem C20_verified_equation_satisfied : forall pars T O V c N,
   (forall m : mono, 0 <= m 0 <= N -> pcoef V (cser (pars c) (tbl N (T c))) m = pcoef V (O c) m) ->
   satisfied pars T O V N (RVerified c).
 Proof. intros. apply verified_equation_holds; auto. Qed.
+
+(* ---- unmapped child parameters that are identically 0 (kid_wf0: every child parameter is the
+   image of a parent parameter OR is 0 on every object of the child).  The emitted equation
+   keeps the child's own variable free; the child's series does not depend on it. *)
+Theorem C20_union_equation_zero_statistic_satisfied : forall pars T O V p kids N,
+  class_wf pars T p -> Forall (kid_wf0 pars T (pars p)) kids -> union_genuine pars T p kids ->
+  satisfied pars T O V N (RUnion (mkorule p (map fst kids) (map snd kids))).
+Proof. intros. apply union_equation_holds0; auto. Qed.
+
+Theorem C20_product_equation_zero_statistic_satisfied : forall pars T O V p kids N,
+  class_wf pars T p -> Forall (pkid_wf0 pars T (pars p)) kids -> product_genuine pars T V p kids N ->
+  satisfied pars T O V N (RProduct (mkorule p (map fst kids) (map snd kids))).
+Proof. intros. apply product_equation_holds0; auto. Qed.
+
+(* EquivalencePathRule whose end class c tracks statistics that no parameter of the start class
+   is mapped to: EquivalencePathRule.constructor passes fixed_values = {k: 0} for them, and
+   get_equation leaves F_c's own variable k in the equation.  Satisfied when those statistics
+   are 0 on every object of c (what fixed_values asserts; e.g. the path runs backwards through a
+   union rule whose parent tracks a statistic none of its children accounts for).  When such a
+   statistic is a genuine one the equation is NOT satisfied: C20_union_unmapped_refuted. *)
+Theorem C20_path_equation_fixed_values_satisfied : forall pars T O V p steps c ep N,
+  path_eps (pars p) steps = Some ep ->
+  class_wf pars T p -> kid_wf0 pars T (pars p) (c, ep) -> union_genuine pars T p [(c, ep)] ->
+  satisfied pars T O V N (RPath p steps c).
+Proof. intros. eapply path_equation_holds0; eauto. Qed.
+
+(* EquivalenceRule(ReverseRule(union rule p -> (.., c, ..))): Complement(c, (p,), 0, (ep,)).
+   With the empty dictionary it emits F_c(x, c's names) = F_p(x, p's names); satisfied when the
+   original rule is genuine (p's parameters are then 0 on every object) and c's parameters are 0
+   on every object (kid_wf0 with the empty dictionary; in particular when c has none). *)
+Theorem C20_equivalence_reverse_equation_satisfied : forall pars T O V c p N,
+  class_wf pars T p -> kid_wf0 pars T (pars p) (c, []) -> union_genuine pars T p [(c, [])] ->
+  satisfied pars T O V N (REquivRev c p []).
+Proof. intros. apply equiv_rev_equation_holds; auto. Qed.
+
+(* ... with a non-empty dictionary Complement.get_equation raises NotImplementedError and an
+   EquivalenceRule has no fallback (ReverseRule has one): the rule has NO equation, and
+   get_equations emits the placeholder F_c(..) = NOTIMPLEMENTED(x).  No claim is made about a
+   placeholder.  (A specification handed back by the searcher groups every equivalence rule
+   into an EquivalencePathRule; a bare EquivalenceRule only occurs with group_equiv=False.) *)
+Theorem C20_equivalence_reverse_with_parameters_has_no_equation : forall pars c p ep,
+  ep <> [] ->
+  rule_equation pars (REquivRev c p ep) = NotImpl /\
+  spec_equation pars (REquivRev c p ep) = Ok (cfun pars c) (Fun (-1) [Var 0]).
+Proof. intros. apply equiv_rev_with_parameters; auto. Qed.
+
+(* without parameters (every dictionary empty: a specification get_genf accepts) every rule form
+   has an equation: the system get_genf solves contains no placeholder *)
+Theorem C20_without_parameters_every_rule_has_equation : forall pars r,
+  rule_plain pars r -> rule_equation pars r <> NotImpl /\ spec_equation pars r = rule_equation pars r.
+Proof. intros. apply plain_rule_has_equation; auto. Qed.
+
+(* and there the equivalence forms are one-child unions / complements (how the harness maps a
+   real univariate specification to `uspec` below) *)
+Theorem C20_without_parameters_equivalences_are_unions : forall pars p steps c,
+  pars p = [] -> Forall (fun st : bool * list (Z * Z) => snd st = []) steps ->
+  rule_equation pars (RPath p steps c) = rule_equation pars (RUnion (mkorule p [c] [[]])) /\
+  rule_equation pars (REquivRev c p []) = rule_equation pars (RRevUnion (mkorule p [c] [[]]) 0).
+Proof. intros. split; [apply plain_path_is_union; auto|apply plain_equiv_rev_is_complement]. Qed.
 
 (* ------------------------------------------------------------ 2. C20_unique_series *)
 (* Univariate specification `uspec` (union, product with declared minimum sizes,
@@ -145,7 +219,57 @@ Proof.
   repeat split; auto; try lia; apply C.
 Qed.
 
-(* ------------------------------------------------------------ 3. a defect of the unchanged code *)
+(* ------------------------------------------------------------ 2b. closed forms (get_genf) *)
+(* genuine_u W c r: rule r of class c is genuine for the counts W, in plain arithmetic
+   (union: W c n = sum of the children's; product: the full Cauchy product; complement: the
+   ORIGINAL union rule; atom; empty).  The true counts then solve the emitted system: *)
+Theorem C20_true_counts_solution : forall (uspec : nat -> option urule) (W : nat -> Z -> Z),
+  (forall c r, uspec c = Some r -> urule_wf c r) ->
+  (forall c r, uspec c = Some r -> genuine_u W c r) ->
+  (forall c m, m < 0 -> W c m = 0) ->
+  (forall c kids, uspec c = Some (UProduct kids) -> forall k m, In k kids -> m < snd k -> W (fst k) m = 0) ->
+  solution uspec W.
+Proof. intros. apply true_counts_solution; auto. Qed.
+
+(* The closed-form criterion.  G c = the Taylor coefficients of the function solved for class c
+   (ALL classes of the specification, not only the root).  If G satisfies every emitted equation
+   at every order (i.e. identically, as formal power series) and vanishes below the declared
+   minimum sizes, then for every class that pumps G agrees with the true counts at EVERY order.
+   Not covered: Quotient rules, verification strategies with their own series, several variables,
+   rational non-integer Taylor coefficients (the carrier is Z).  Nothing here is about sympy:
+   that the function get_genf returns has such an extension G is checked per instance. *)
+Theorem C20_closed_form_criterion : forall (uspec : nat -> option urule) (keys : list fkey),
+  (forall k, In k keys -> exists r, uspec (parent k) = Some r /\ kids k = r_kids Z (to_srule r)) ->
+  (forall c r, uspec c = Some r -> urule_wf c r) ->
+  forall W G : nat -> Z -> Z,
+  (forall c r, uspec c = Some r -> genuine_u W c r) ->
+  (forall c m, m < 0 -> W c m = 0) ->
+  (forall c kids, uspec c = Some (UProduct kids) -> forall k m, In k kids -> m < snd k -> W (fst k) m = 0) ->
+  (forall c m, m < 0 -> G c m = 0) ->
+  (forall c r, uspec c = Some r -> satisfies G c r) ->
+  (forall c kids, uspec c = Some (UProduct kids) -> forall k m, In k kids -> m < snd k -> G (fst k) m = 0) ->
+  forall c, pumps keys c -> forall n, 0 <= n -> G c n = W c n.
+Proof. intros. eapply closed_form_criterion; eauto. Qed.
+
+(* ------------------------------------------------------------ 3. defects of the unchanged code *)
+(* DisjointUnion.get_equation leaves a child parameter that no parent parameter is mapped to as a
+   free variable of the child's function, while get_terms sums it out: a genuine union rule (and
+   the EquivalencePathRule over it, whose constructor has fixed_values = {e: 0}) whose emitted
+   equation is not satisfied.  (kid_wf's last conjunct fails for this child, everything else
+   holds.) *)
+Theorem C20_union_unmapped_refuted :
+  exists pars T V p c ep N,
+  class_wf pars T p /\ class_wf pars T c /\ NoDup (map fst ep) /\ incl (map fst ep) (pars p) /\
+  incl (map snd ep) (pars c) /\ union_genuine pars T p [(c, ep)] /\
+  ~ satisfied pars T (fun _ => []) V N (RUnion (mkorule p [c] [ep])) /\
+  ~ satisfied pars T (fun _ => []) V N (RPath p [(false, ep)] c).
+Proof.
+  exists um_pars, um_T, um_V, 0, 1, [(1, 1)], 2.
+  destruct union_unmapped_refuted as [A [B [C [D [E [F [G H]]]]]]].
+  split; [exact A|]. split; [exact B|]. split; [exact C|]. split; [exact D|]. split; [exact E|].
+  split; [exact F|]. split; [exact G|]. unfold satisfied. rewrite H. exact G.
+Qed.
+
 (* CartesianProduct.get_equation inverts the dictionary ({child: parent ...}): with two
    parent parameters mapped to one child parameter only the last one survives, and the
    emitted equation is NOT satisfied by a genuine rule (get_terms handles the case). *)
@@ -645,6 +769,214 @@ Proof.
   vm_compute in H. assert (1 = 0) as E by (apply H; split; discriminate). discriminate E.
 Qed.
 
+(* ---------------------------------------------------------------- zero statistics, reverse equivalences
+   z_ classes: the words a^n.  Class 0 tracks k = number of a's (variable 1); class 1 tracks k and
+   z = number of c's (variable 9), which is 0 on every word; class 2 tracks nothing; class 3 tracks
+   only z. *)
+Definition z_pars (l : Z) : list Z := match l with 0 => [1] | 1 => [1; 9] | 3 => [9] | _ => [] end.
+Definition z_T (l n : Z) : list (list Z * Z) :=
+  match l with 0 => [([n], 1)] | 1 => [([n; 0], 1)] | 2 => [([], 1)] | 3 => [([0], 1)] | _ => [] end.
+
+Lemma z_class_wf l : l = 0 \/ l = 1 \/ l = 2 \/ l = 3 -> class_wf z_pars z_T l.
+Proof.
+  intros Hl. split; [|split].
+  - destruct Hl as [-> | [-> | [-> | ->]]]; simpl; repeat constructor; simpl; intuition discriminate.
+  - destruct Hl as [-> | [-> | [-> | ->]]]; simpl; intuition discriminate.
+  - intros n t. destruct Hl as [-> | [-> | [-> | ->]]]; simpl; intros [<-|[]]; reflexivity.
+Qed.
+
+(* class 1 as the child of class 0 under {k: k}: z is not mapped to, and is 0 everywhere *)
+Lemma z_kid_wf0 : kid_wf0 z_pars z_T (z_pars 0) (1, [(1, 1)]).
+Proof.
+  split; [apply z_class_wf; auto|]. cbn [fst snd map].
+  split; [repeat constructor; simpl; tauto|].
+  split; [intros x [<-|[]]; simpl; auto|]. split; [intros x [<-|[]]; simpl; auto|].
+  intros cv [<-|[<-|[]]]; [left; reflexivity|right].
+  intros n t [<-|[]]. reflexivity.
+Qed.
+Lemma z_not_kid_wf : ~ kid_wf z_pars z_T (z_pars 0) (1, [(1, 1)]).
+Proof. intros [_ [_ [_ [_ H]]]]. specialize (H 9 (or_intror (or_introl eq_refl))). discriminate H. Qed.
+Lemma z_genuine : union_genuine z_pars z_T 0 [(1, [(1, 1)])].
+Proof. intros n Hn e. unfold cnt. simpl. unfold aget. simpl. lia. Qed.
+
+(* covers C20_path_equation_fixed_values_satisfied: the path from class 0 BACKWARDS through the
+   union rule 1 -> (0) with extra_parameters {k: k} (a Complement step): composed dictionary
+   {k: k}, fixed_values = {z: 0}; emitted F_0(x,k) = 0 + F_1(x,k,z) with z free; kid_wf fails,
+   kid_wf0 holds *)
+Example C20_path_equation_fixed_values_nonvacuous :
+  rule_equation z_pars (RPath 0 [(true, [(1, 1)])] 1) =
+    Ok (Fun 0 [Var 0; Var 1]) (Add (Const 0) (Fun 1 [Var 0; Var 1; Var 9])) /\
+  ~ kid_wf z_pars z_T (z_pars 0) (1, [(1, 1)]) /\
+  forall N, satisfied z_pars z_T (fun _ => []) [0; 1; 9] N (RPath 0 [(true, [(1, 1)])] 1).
+Proof.
+  split; [reflexivity|]. split; [exact z_not_kid_wf|]. intros N.
+  exact (C20_path_equation_fixed_values_satisfied z_pars z_T (fun _ => []) [0; 1; 9] 0
+           [(true, [(1, 1)])] 1 [(1, 1)] N eq_refl (z_class_wf 0 (or_introl eq_refl)) z_kid_wf0 z_genuine).
+Qed.
+Example C20_union_equation_zero_statistic_nonvacuous : forall N,
+  satisfied z_pars z_T (fun _ => []) [0; 1; 9] N (RUnion (mkorule 0 [1] [[(1, 1)]])).
+Proof.
+  intros N.
+  exact (C20_union_equation_zero_statistic_satisfied z_pars z_T (fun _ => []) [0; 1; 9] 0 [(1, [(1, 1)])] N
+           (z_class_wf 0 (or_introl eq_refl)) (Forall_cons _ z_kid_wf0 (Forall_nil _)) z_genuine).
+Qed.
+
+(* covers C20_product_equation_zero_statistic_satisfied: the word "a" (class 0, tracking k) = the word "a"
+   tracking k and the zero statistic z (class 1, dictionary {k: k}: z is nobody's image) x the empty word
+   (class 4); emitted F_0(x,k) = 1 * F_1(x,k,z) * F_4(x) *)
+Definition zp_T (l n : Z) : list (list Z * Z) :=
+  if (l =? 0) && (n =? 1) then [([1], 1)]
+  else if (l =? 1) && (n =? 1) then [([1; 0], 1)]
+  else if (l =? 4) && (n =? 0) then [([], 1)]
+  else [].
+Definition zp_kids : list (Z * list (Z * Z)) := [(1, [(1, 1)]); (4, [])].
+Lemma zp_tab l n t : In t (zp_T l n) -> length (fst t) = length (z_pars l).
+Proof.
+  unfold zp_T.
+  destruct ((l =? 0) && (n =? 1)) eqn:A.
+  { apply andb_true_iff in A. destruct A as [A _]. apply Z.eqb_eq in A. subst. intros [<-|[]]. reflexivity. }
+  destruct ((l =? 1) && (n =? 1)) eqn:B.
+  { apply andb_true_iff in B. destruct B as [B _]. apply Z.eqb_eq in B. subst. intros [<-|[]]. reflexivity. }
+  destruct ((l =? 4) && (n =? 0)) eqn:C.
+  { apply andb_true_iff in C. destruct C as [C _]. apply Z.eqb_eq in C. subst. intros [<-|[]]. reflexivity. }
+  intros [].
+Qed.
+Lemma zp_class_wf l : l = 0 \/ l = 1 \/ l = 4 -> class_wf z_pars zp_T l.
+Proof.
+  intros Hl. split; [|split].
+  - destruct Hl as [-> | [-> | ->]]; simpl; repeat constructor; simpl; intuition discriminate.
+  - destruct Hl as [-> | [-> | ->]]; simpl; intuition discriminate.
+  - intros n t. apply zp_tab.
+Qed.
+Example C20_product_equation_zero_statistic_nonvacuous :
+  rule_equation z_pars (RProduct (mkorule 0 (map fst zp_kids) (map snd zp_kids))) =
+    Ok (Fun 0 [Var 0; Var 1]) (Mul (Mul (Const 1) (Fun 1 [Var 0; Var 1; Var 9])) (Fun 4 [Var 0])) /\
+  satisfied z_pars zp_T (fun _ => []) [0; 1; 9] 2 (RProduct (mkorule 0 (map fst zp_kids) (map snd zp_kids))).
+Proof.
+  split; [reflexivity|].
+  apply C20_product_equation_zero_statistic_satisfied.
+  - apply zp_class_wf; auto.
+  - constructor; [|constructor; [|constructor]]; unfold pkid_wf0, kid_wf0; cbn [fst snd map].
+    + split; [split; [|split; [|split; [|split]]]|].
+      * apply zp_class_wf; auto.
+      * repeat constructor; simpl; tauto.
+      * intros x [<-|[]]; simpl; auto.
+      * intros x [<-|[]]; simpl; auto.
+      * intros cv [<-|[<-|[]]]; [left; reflexivity|right].
+        intros n t Ht. unfold zp_T in Ht. cbn [Z.eqb andb] in Ht.
+        destruct (n =? 1); [|destruct Ht]. destruct Ht as [<-|[]]. reflexivity.
+      * repeat constructor; simpl; tauto.
+    + split; [split; [|split; [|split; [|split]]]|].
+      * apply zp_class_wf; auto.
+      * constructor.
+      * intros x [].
+      * intros x [].
+      * intros cv [].
+      * constructor.
+  - intros m _. vm_compute. reflexivity.
+Qed.
+
+(* covers C20_equivalence_reverse_equation_satisfied, both shapes: the union rule 3 -> (2) with the
+   empty dictionary (the parent's statistic z is 0 on every object) reversed: F_2(x) = F_3(x,z);
+   and the union rule 2 -> (3) reversed: F_3(x,z) = F_2(x) *)
+Example C20_equivalence_reverse_equation_nonvacuous : forall N,
+  rule_equation z_pars (REquivRev 2 3 []) = Ok (Fun 2 [Var 0]) (Fun 3 [Var 0; Var 9]) /\
+  satisfied z_pars z_T (fun _ => []) [0; 9] N (REquivRev 2 3 []) /\
+  satisfied z_pars z_T (fun _ => []) [0; 9] N (REquivRev 3 2 []).
+Proof.
+  intros N. split; [reflexivity|]. split.
+  - apply C20_equivalence_reverse_equation_satisfied.
+    + apply z_class_wf; auto.
+    + split; [apply z_class_wf; auto|]. cbn [fst snd map]. split; [constructor|].
+      split; [intros x []|]. split; [intros x []|]. intros cv [].
+    + intros n Hn e. unfold cnt. simpl. lia.
+  - apply C20_equivalence_reverse_equation_satisfied.
+    + apply z_class_wf; auto.
+    + split; [apply z_class_wf; auto|]. cbn [fst snd map]. split; [constructor|].
+      split; [intros x []|]. split; [intros x []|].
+      intros cv [<-|[]]. right. intros n t [<-|[]]. reflexivity.
+    + intros n Hn e. unfold cnt. simpl. lia.
+Qed.
+(* the reverse equivalence of a union whose child really tracks something is NOT satisfied in this
+   form — and with the dictionary {k: k} there is no equation at all *)
+Example C20_equivalence_reverse_with_parameters_nonvacuous :
+  rule_equation z_pars (REquivRev 1 0 [(1, 1)]) = NotImpl /\
+  spec_equation z_pars (REquivRev 1 0 [(1, 1)]) = Ok (Fun 1 [Var 0; Var 1; Var 9]) (Fun (-1) [Var 0]).
+Proof.
+  exact (C20_equivalence_reverse_with_parameters_has_no_equation z_pars 1 0 [(1, 1)] ltac:(discriminate)).
+Qed.
+(* products with a single factor (fix 25e10f1): the EquivalenceRule emits the one-child union equation, the
+   EquivalenceRule of the reversed rule and a path holding such a wrapped step have no equation at all *)
+Example C20_single_factor_product_equivalences :
+  rule_equation z_pars (REquivUnion (mkorule 0 [1] [[(1, 1)]]) 0) =
+    Ok (Fun 0 [Var 0; Var 1]) (Add (Const 0) (Fun 1 [Var 0; Var 1; Var 9])) /\
+  rule_equation nopars (REquivRevProduct 2 0) = NotImpl /\
+  spec_equation nopars (RPathNoCtor 0 2) = Ok (Fun 0 [Var 0]) (Fun (-1) [Var 0]) /\
+  ~ rule_plain nopars (REquivRevProduct 2 0).
+Proof. split; [reflexivity|]. split; [reflexivity|]. split; [reflexivity|]. intros []. Qed.
+
+Example C20_without_parameters_nonvacuous :
+  rule_equation nopars (RPath 0 [(true, []); (false, [])] 2) =
+    Ok (Fun 0 [Var 0]) (Add (Const 0) (Fun 2 [Var 0])) /\
+  rule_equation nopars (REquivRev 2 0 []) = Ok (Fun 2 [Var 0]) (Fun 0 [Var 0]) /\
+  rule_equation nopars (RRevProduct (mkorule 2 [3; 0] [[]; []]) 1) <> NotImpl.
+Proof.
+  split; [|split].
+  - rewrite (proj1 (C20_without_parameters_equivalences_are_unions nopars 0 [(true, []); (false, [])] 2 eq_refl
+               ltac:(repeat constructor))). reflexivity.
+  - reflexivity.
+  - apply (C20_without_parameters_every_rule_has_equation nopars (RRevProduct (mkorule 2 [3; 0] [[]; []]) 1)).
+    reflexivity.
+Qed.
+
+(* covers C20_true_counts_solution and C20_closed_form_criterion on ex_spec (L = 1 + x*L): the
+   counts lw are genuine for every rule in plain arithmetic, hence a solution, hence every family
+   that satisfies the four equations at every order and vanishes below the minima has lw's
+   coefficients *)
+Lemma l_genuine_u : forall c r, ex_spec c = Some r -> genuine_u lw c r.
+Proof.
+  intros [|[|[|[|c]]]] r E; try discriminate; injection E as <-; cbn [genuine_u].
+  - intros n Hn. simpl. destruct (Z.ltb_spec n 0); [lia|].
+    destruct (Z.eqb_spec n 0); destruct (Z.ltb_spec n 1); lia.
+  - intros n Hn. reflexivity.
+  - intros n Hn. cbn [map fst conv].
+    transitivity (zsum 0 (n + 1) (fun i => (if i =? 1 then 1 else 0) *
+                    zsum 0 (n + 1) (fun j => (if j =? n - i then 1 else 0) * lw 0 j))).
+    + rewrite zsum_delta_at. rewrite zsum_delta_at. simpl.
+      destruct (Z.ltb_spec n 1).
+      * destruct (Z.ltb_spec 1 (n + 1)); simpl; [|reflexivity].
+        destruct (Z.leb_spec 0 (n - 1)); [lia|reflexivity].
+      * assert (1 <? n + 1 = true) as -> by (apply Z.ltb_lt; lia).
+        assert (0 <=? n - 1 = true) as -> by (apply Z.leb_le; lia).
+        assert (n - 1 <? n + 1 = true) as -> by (apply Z.ltb_lt; lia).
+        simpl. destruct (Z.ltb_spec (n - 1) 0); [lia|reflexivity].
+    + apply zsum_ext. intros i Hi. f_equal. apply zsum_ext. intros j Hj.
+      rewrite Z.mul_comm. f_equal.
+      destruct (Z.eqb_spec j (n - i)); destruct (Z.eqb_spec (n - i - j) 0); lia.
+  - intros n Hn. reflexivity.
+Qed.
+Lemma l_neg : forall c m, m < 0 -> lw c m = 0.
+Proof. destruct l_solution as [A _]. exact A. Qed.
+Lemma l_low : forall c kids, ex_spec c = Some (UProduct kids) ->
+  forall k m, In k kids -> m < snd k -> lw (fst k) m = 0.
+Proof. destruct l_solution as [_ [_ A]]. exact A. Qed.
+
+Example C20_true_counts_solution_nonvacuous : solution ex_spec lw.
+Proof.
+  destruct C20_ex_unique_hypotheses as (_ & W & _).
+  exact (C20_true_counts_solution ex_spec lw W l_genuine_u l_neg l_low).
+Qed.
+Example C20_closed_form_criterion_nonvacuous :
+  forall G : nat -> Z -> Z,
+  (forall c m, m < 0 -> G c m = 0) ->
+  (forall c r, ex_spec c = Some r -> satisfies G c r) ->
+  (forall c kids, ex_spec c = Some (UProduct kids) -> forall k m, In k kids -> m < snd k -> G (fst k) m = 0) ->
+  G 0%nat 5 = 1.
+Proof.
+  intros G G1 G2 G3. destruct C20_ex_unique_hypotheses as (K & W & P).
+  apply (C20_closed_form_criterion ex_spec ex_keys K W lw G l_genuine_u l_neg l_low G1 G2 G3 0%nat P 5). lia.
+Qed.
+
 Print Assumptions C20_union_equation_satisfied.
 Print Assumptions C20_product_equation_satisfied.
 Print Assumptions C20_reverse_with_parameters_falls_back.
@@ -660,3 +992,13 @@ Print Assumptions C20_unique_needs_minimum_sizes_refuted.
 Print Assumptions C20_product_collision_refuted.
 Print Assumptions C20_ex_union_swapped_names.
 Print Assumptions C20_ex_product_shifted_names.
+Print Assumptions C20_union_equation_zero_statistic_satisfied.
+Print Assumptions C20_product_equation_zero_statistic_satisfied.
+Print Assumptions C20_path_equation_fixed_values_satisfied.
+Print Assumptions C20_equivalence_reverse_equation_satisfied.
+Print Assumptions C20_equivalence_reverse_with_parameters_has_no_equation.
+Print Assumptions C20_without_parameters_every_rule_has_equation.
+Print Assumptions C20_without_parameters_equivalences_are_unions.
+Print Assumptions C20_true_counts_solution.
+Print Assumptions C20_closed_form_criterion.
+Print Assumptions C20_union_unmapped_refuted.
